@@ -10,7 +10,7 @@ import ast
 
 from ..core.cfg import walk_shallow
 from ..core.facts import U
-from ..engine import fn_name, kwarg
+from ..engine import fn_name, kwarg, argn
 
 UNK = None  # unknown shape
 
@@ -192,7 +192,13 @@ class Interp:
 
     def ev_call(self, f, c, env):
         n = fn_name(c)
-        A = [self.ev(f, a, env) for a in c.args]
+        pos = list(c.args)
+        while not isinstance(c.func, ast.Name) or c.func.id not in env:      # arguments of package functions written by keyword
+            nxt = argn(c, len(pos))
+            if nxt is None or any(nxt is k_.value for k_ in c.keywords if k_.arg in ("axis", "keepdims", "lower", "size")):
+                break
+            pos.append(nxt)
+        A = [self.ev(f, a, env) for a in pos]
         fv = env.get(c.func.id) if isinstance(c.func, ast.Name) else None
 
         def plain(s):
@@ -228,18 +234,18 @@ class Interp:
                     raise ShapeError(f"solve_triangular: factor {fmt(l)} does not match right-hand side {fmt(b)} in `{U(c)[:70]}`", c)
                 return b
             return UNK
-        if n == "reshape" and len(c.args) == 2:
+        if n == "reshape" and len(pos) == 2:
             x = A[0]
             if plain(x):
-                sh = self.dims_from_tuple(f, c.args[1], env, total=size_of(x))
+                sh = self.dims_from_tuple(f, pos[1], env, total=size_of(x))
                 if sh is not UNK and "-1" not in sh:
                     want = [d for d in sh if d not in ("1", "?")]
                     have = [d for d in x if d != "1"]
                     if "?" not in sh and sorted(want) != sorted(have) and "?" not in have:
                         raise ShapeError(f"reshape of {fmt(x)} to {fmt(sh)} changes the number of elements in `{U(c)[:70]}`", c)
                 return sh
-            return self.dims_from_tuple(f, c.args[1], env)
-        if n == "sum":
+            return self.dims_from_tuple(f, pos[1], env)
+        if n in ("sum", "prod", "mean", "max", "min", "amax", "amin", "nansum", "logsumexp"):
             x = A[0] if A else UNK
             ax = kwarg(c, "axis", 1)
             if ax is None:
@@ -262,10 +268,10 @@ class Interp:
             return (A[0][0],)
         if n == "expand_dims" and A and plain(A[0]):
             return A[0] + ("1",)
-        if n in ("zeros", "ones") and c.args:
-            return self.dims_from_tuple(f, c.args[0], env)
-        if n == "concatenate" and c.args and isinstance(c.args[0], ast.List):
-            parts = [self.ev(f, x, env) for x in c.args[0].elts]
+        if n in ("zeros", "ones") and pos:
+            return self.dims_from_tuple(f, pos[0], env)
+        if n == "concatenate" and pos and isinstance(pos[0], ast.List):
+            parts = [self.ev(f, x, env) for x in pos[0].elts]
             ax = kwarg(c, "axis", 1)
             if all(plain(p) for p in parts) and ax is not None and len({len(p) for p in parts}) == 1:
                 k = int(U(ax)) % len(parts[0])
@@ -340,6 +346,9 @@ def check_posterior_utils(ctx):
             out.append((name, False, msg + (f" (in {g.name})" if g is not f else ""), node, g))
             continue
         if want is not None:
+            if got is UNK:      # an operation the interpreter has no shape rule for: nothing is known, nothing is reported as wrong
+                from ..core.model import AnchorError
+                raise AnchorError(f"posterior_utils.{name}: the shape of the returned value cannot be derived (an operation without a shape rule)")
             ok = _same(got, want)
             out.append((name, ok, f"returns {fmt(got)}" if ok else f"returns {fmt(got)}, documented {fmt(want)}", None, f))
         else:
